@@ -32,8 +32,12 @@ def eval_model(cases):
     return eval_model_terms([c.coq() for c in cases])
 
 
+ELIF_VISITED = False      # set by run(): does the real check_if_stmt visit elif branches (pending C03 fix)?
+
+
 def eval_model_terms(terms):
-    res = vlib.coq_eval(REQ, "fcase", "c02_case", terms, shard=max(8, (len(terms) + 15) // 16), tag="c02")
+    res = vlib.coq_eval(REQ, "fcase", "c02_case_gen %s" % ("true" if ELIF_VISITED else "false"), terms,
+                        shard=max(8, (len(terms) + 15) // 16), tag="c02")
     out = []
     for r in res:
         chk_ok, kind, build, flags = r
@@ -215,6 +219,11 @@ def run(chk):
     tags = ["witness:" + k for k in wnames] + tags
     chk.coverage["constructs"] = c01.CONSTRUCTS + ["(C02) one injected rule violation per function, 22 kinds"]
 
+    # which variant of check_if_stmt does the tree have?  (Core/Checker.v models both; see `ev` there)
+    global ELIF_VISITED
+    probe = c01.emit_real(dbg, [wit["elif-unchecked"].source("t0") + "def main() -> None:\n    t0()\n"])[0]
+    ELIF_VISITED = bool(probe.get("check"))
+    chk.coverage["checker_variant"] = "elif branches visited (fix merged)" if ELIF_VISITED else "elif branches not visited (finding elif-unchecked)"
     model_ok = vlib.coq_build(["C02/Model.vo"])[0]
     if not model_ok:
         res["tie_ok"] = False
